@@ -71,6 +71,22 @@ def gen_case(rng, tier):
         docs[1]['items'].append([hk, M([['steps', op]]) if depth2 else M([['sub', M([['steps', op]])]])])
         if hk == 'a.b' and rng.random() < 0.5 and 'a' not in [k for k, _ in docs[0]['items']]:
             docs[0]['items'].append(['a', M([['b', M([['steps', L([S(77)])]])]])])
+    focus = None
+    if rng.random() < 0.25:
+        # low-priority defaults in a container, a later stage restating one of them at the same low priority: the latest of
+        # equals wins whatever was written next to it in between (see deep_sibling)
+        wk = rng.choice(['wk', 'wk', 'k1'])
+        if wk not in [k for d in docs for k, _ in d['items']]:
+            inner = M([['a', emit.S(1)], ['b', emit.S(2)]])
+            holder = inner if rng.random() < 0.5 else M([['sub', inner]])
+            holder['prio'] = -1
+            docs[0]['items'].append([wk, holder])
+            late = M([['a', emit.S(7, prio=-1)]])
+            late = late if holder is inner else M([['sub', late]])
+            if len(docs) < 2 or docs[-1].get('new') is False or docs[-1].get('del'):
+                docs.append(M([]))
+            docs[-1]['items'].append([wk, late])
+            focus = [wk] if holder is inner else [wk, 'sub']
     prefix = [rng.choice(POOL + ['w']) for _ in range(rng.choice([1, 1, 2, 3]))]
     perm_keys = POOL[:]
     rng.shuffle(perm_keys)
@@ -94,7 +110,7 @@ def gen_case(rng, tier):
     return {'base': [emit.emit(d, style) for d in docs],
             'wrapped': [emit.emit(wrap(d, prefix), style) for d in docs], 'prefix': prefix,
             'sibling': [emit.emit(d, style) for d in sib],
-            'renamed': [emit.emit(rename(d, perm), style) for d in docs], 'perm': perm,
+            'renamed': [emit.emit(rename(d, perm), style) for d in docs], 'perm': perm, 'focus': focus,
             'ntags': sum(1 for d in docs for _, x in emit.walk(d) if emit.has_flags(x) or x['t'] == 'sp')}
 
 
@@ -135,6 +151,74 @@ def _rename_plain(v, perm):
     if isinstance(v, list):
         return [_rename_plain(x, perm) for x in v]
     return v
+
+
+def deep_sibling(case, base):
+    """an extra, untagged document inserted between two stages that only adds one new key inside a mapping which exists at that point:
+    everything else must come out as it did (the new key removed again from the result).  Skipped when a later stage has a lower-than-
+    standard priority, a non-mapping or an operator on the way to that mapping (then the priority the extra writer gives the containers
+    on the way legitimately decides a type conflict)."""
+    import json
+    import random as _r
+    from awesomeyaml.nodes.dict import ConfigDict
+    from awesomeyaml.builder import Builder
+    texts = case['base']
+    if len(texts) < 2 or base[0] != 'ok':
+        return None
+    rng = _r.Random(util.sig(texts))
+    i = rng.randrange(1, len(texts))
+    pre = lib.outcome(lambda: lib.merged(texts[:i]))
+    if pre[0] != 'ok' or pre[1] is None:
+        return None
+    cands = []
+    for p, n in pre[1].ayns.nodes_with_paths(include_self=False):
+        comps = [view.key_native(c) for c in p]
+        if type(n) is not ConfigDict or not all(isinstance(c, str) for c in comps):
+            continue
+        node, plain = pre[1], True
+        for c in comps:
+            node = node.ayns.get_child(c)
+            plain = plain and type(node) is ConfigDict
+        if plain:
+            cands.append(comps)
+    if not cands:
+        return None
+    M = rng.choice(sorted(cands))
+    if case.get('focus') and case['focus'] in cands and rng.random() < 0.8:
+        M = case['focus']
+    for t in texts[i:]:
+        b = Builder()
+        try:
+            b.add_source(t, raw_yaml=True)
+        except Exception:
+            return None
+        for st in b.stages:
+            node = st
+            for c in [None] + M:
+                if c is not None:
+                    node = node.ayns.get_child(c) if isinstance(node, dict) and hasattr(node, 'ayns') else None
+                    if node is None:
+                        break
+                if type(node) is not ConfigDict or (node.ayns.priority or 0) < 0:
+                    return None
+    ins = json.dumps('zz_deep') + ': 1'
+    for c in reversed(M):
+        ins = json.dumps(c) + ': {' + ins + '}'
+    ins = '{' + ins + '}\n'
+    got, _ = observe(texts[:i] + [ins] + texts[i:])
+    if got[0] != 'ok':
+        return {'mech': 'deep-sibling-changes-outcome', 'what': f'base builds {util.short(base[1], 200)} but with the extra document {ins!r} inserted at position {i}: {util.short(got, 300)}; texts={texts!r}'}
+    def strip(v):
+        # the new key goes wherever later stages move the mapping it was written into (!prev): it is removed wherever it ended up
+        if isinstance(v, dict):
+            return {k: strip(x) for k, x in v.items() if k != 'zz_deep'}
+        if isinstance(v, list):
+            return [strip(x) for x in v]
+        return v
+    res = strip(got[1])
+    if util.typed(res) != util.typed(base[1]):
+        return {'mech': 'deep-sibling-changes-result', 'what': f'base = {util.short(base[1], 300)}; with the extra document {ins!r} at position {i} (new key removed again) = {util.short(res, 300)}; texts={texts!r}'}
+    return 'ok'
 
 
 def run(case):
@@ -185,6 +269,12 @@ def run(case):
             got = {k: v for k, v in s[1].items() if k not in ('zz', 'zq')}
             if util.typed(got) != util.typed(base[1]):
                 vio.append({'mech': 'sibling-changes-result', 'what': f'base = {util.short(base[1], 300)}; with siblings (restricted to the original keys) = {util.short(got, 300)}; texts={case["sibling"]!r}'})
+    # --- a sibling key added *inside* an existing mapping by an extra document in the middle of the sequence
+    ds = deep_sibling(case, base)
+    if ds:
+        feats.append('deep_sibling_checked')
+        if ds != 'ok':
+            vio.append(ds)
     # --- renaming
     r, _ = observe(case['renamed'])
     if base[0] == 'err':
